@@ -27,7 +27,11 @@ md = open("/verif/coq/Run/Dispatch.v").read()
 for l in td:
     if l in bd or l in md.split("\n") or not l.strip():
         continue
-    if l.startswith("From BS Require Import"):
+    if l.startswith("From BS Require"):
+        mods = re.findall(r"Run\.D_C\d+", l)
+        if not mods:
+            print("UNMERGED Dispatch import:", l); continue
+        l = "From BS Require Import " + " ".join(mods) + "."
         md = md.replace("Import ListNotations.", l + "\nImport ListNotations.", 1) if l not in md else md
     elif re.match(r"\s*\|\s*\d+\s*=>\s*disp_c\d+", l):
         md = md.replace("  match nn with\n", "  match nn with\n" + l + "\n", 1)
